@@ -41,3 +41,21 @@ def extend(g, api):
                 raise Exception('prepare_msg shape changed: ' + n)
         return 1
     g.nat('prepareMsgShapeChecked', 'quinn-udp/src/unix.rs::prepare_msg (set of control messages as modelled)', prepare_shape)
+    def send_fallback_shape():
+        # the Linux `fn send` (free function, after the cfg that excludes apple/openbsd/netbsd) as modelled in Udp/Send.lean
+        t = api.strip_comments(api.read('quinn-udp/src/unix.rs'))
+        body = api.fn_body(t, 'send', after='#[cfg(not(any(apple, target_os = "openbsd", target_os = "netbsd")))]\nfn send(')
+        halt = re.search(r'state\.max_gso_segments\.store\(1,\s*Ordering::Relaxed\)', body)
+        fb = re.search(r'if\s+let\s+Some\(segment_size\)\s*=\s*transmit\.effective_segment_size\(\)\s*\{\s*return\s+send_unsegmented\(state,\s*&io,\s*transmit,\s*segment_size\)\s*;\s*\}', body)
+        einval = re.search(r'state\.set_sendmsg_einval\(\)', body)
+        if not (halt and fb and einval):
+            raise Exception('send: a refused GSO batch is not re-sent datagram by datagram (send_unsegmented fallback missing)')
+        if not (halt.start() < fb.start() < einval.start()):
+            raise Exception('send: order of halt-offload / unsegmented fallback / sendmsg_einval changed')
+        if not re.search(r'matches!\(e\.raw_os_error\(\),\s*Some\(libc::EINVAL\)\s*\|\s*Some\(libc::EIO\)\)\s*&&\s*!state\.sendmsg_einval\(\)', body):
+            raise Exception('send: sendmsg_einval retry condition changed')
+        ub = api.fn_body(t, 'send_unsegmented')
+        if not re.search(r'for\s+contents\s+in\s+transmit\.contents\.chunks\(segment_size\)\s*\{\s*send\(\s*state,\s*SockRef::from\(io\),\s*&Transmit\s*\{\s*contents,\s*segment_size:\s*None,\s*\.\.transmit\.clone\(\)\s*,?\s*\}\s*,?\s*\)\?\s*;\s*\}\s*Ok\(\(\)\)', ub):
+            raise Exception('send_unsegmented shape changed')
+        return 1
+    g.nat('sendGsoFallbackShapeChecked', 'quinn-udp/src/unix.rs::send + send_unsegmented (refused GSO batch re-sent datagram by datagram before the sendmsg_einval fallback; as modelled in Udp/Send.lean)', send_fallback_shape)
